@@ -66,8 +66,8 @@ def hashes (t : Tag) : Nat := t.str.count '#'
 def isDefish (t : Tag) : Bool := t.base != .other
 /-- forget the mutable fields (a freshly parsed / deep-copied-and-never-queried tag) -/
 def erase (t : Tag) : Tag := { t with cached := false, expanded := false }
-/-- `HedTag.__eq__` on two distinct objects -/
-def eqv (a b : Tag) : Bool := a.str == b.str || a.org == b.org
+/-- `HedTag.__eq__` on two distinct objects: case-folded short forms, or case-folded original texts -/
+def eqv (fold : Str → Str) (a b : Tag) : Bool := fold a.str == fold b.str || a.org == b.org
 end Tag
 
 def isGrp : Node → Bool | .grp _ => true | .tag _ => false
@@ -131,38 +131,53 @@ def isort (le : Node → Node → Bool) : List Node → List Node
   | [] => []
   | x :: xs => insertBy le x (isort le xs)
 
-def leStr (a b : Node) : Bool := strLe (str a) (str b)
+mutual
+/-- `HedGroup._sort_key` of an element of a sorted view: case-folded printout of a tag,
+`"(" + ",".join(keys) + ")"` of an (already sorted) group -/
+def skey (fold : Str → Str) : Node → Str
+  | .tag t => fold t.str
+  | .grp ks => '(' :: (skeyL fold ks ++ [')'])
+def skeyL (fold : Str → Str) : List Node → Str
+  | [] => []
+  | k :: ks => match ks with
+    | [] => skey fold k
+    | _ :: _ => skey fold k ++ (',' :: skeyL fold ks)
+end
 
-/-- tags sorted by printout, then groups sorted by printout (both sorts stable) -/
-def arrange (ks : List Node) : List Node :=
-  isort leStr (ks.filter isTag) ++ isort leStr (ks.filter isGrp)
+/-- `<=` on the sort key `(_sort_key(sorted view), str(element))` (tuple comparison) -/
+def leKey (fold : Str → Str) (a b : Node) : Bool :=
+  if skey fold a == skey fold b then strLe (str a) (str b) else strLe (skey fold a) (skey fold b)
+
+/-- tags sorted by key, then groups sorted by key (both sorts stable); the members are already sorted -/
+def arrange (fold : Str → Str) (ks : List Node) : List Node :=
+  isort (leKey fold) (ks.filter isTag) ++ isort (leKey fold) (ks.filter isGrp)
 
 mutual
-def sortN : Node → Node
+def sortN (fold : Str → Str) : Node → Node
   | .tag t => .tag t
-  | .grp ks => .grp (arrange (sortL ks))
-def sortL : List Node → List Node
+  | .grp ks => .grp (arrange fold (sortL fold ks))
+def sortL (fold : Str → Str) : List Node → List Node
   | [] => []
-  | k :: ks => sortN k :: sortL ks
+  | k :: ks => sortN fold k :: sortL fold ks
 end
 
 /-- `group.sorted()` / `group.sort()` seen on the children list of the group -/
-def sortG (ks : List Node) : List Node := arrange (sortL ks)
+def sortG (fold : Str → Str) (ks : List Node) : List Node := arrange fold (sortL fold ks)
 
 mutual
 /-- `a == b` for two children (`HedTag.__eq__`, `HedGroup.__eq__`; a tag never equals a group) -/
-def eqv : Node → Node → Bool
+def eqv (fold : Str → Str) : Node → Node → Bool
   | .tag a, n => match n with
-    | .tag b => a.eqv b
+    | .tag b => a.eqv fold b
     | .grp _ => false
   | .grp ks, n => match n with
     | .tag _ => false
-    | .grp ls => eqvL ks ls
-def eqvL : List Node → List Node → Bool
+    | .grp ls => eqvL fold ks ls
+def eqvL (fold : Str → Str) : List Node → List Node → Bool
   | [], ls => ls.isEmpty
   | k :: ks, ls => match ls with
     | [] => false
-    | l :: ls' => eqv k l && eqvL ks ls'
+    | l :: ls' => eqv fold k l && eqvL fold ks ls'
 end
 
 /-! ### The dictionary -/
@@ -230,7 +245,7 @@ def accept (dd : DefDict) (dt : Tag) (ks : List Node) : DefDict × List Issue :=
   let i2 := contentIssues cs ++ placeholderIssues cs nt.2
   if !i2.isEmpty then (dd, i2) else
   if (lookup dd (fold nt.1)).isSome then (dd, [Issue.duplicateDefinition]) else
-  (dd ++ [⟨fold nt.1, nt.1, eraseL (sortG cs), nt.2⟩], [])
+  (dd ++ [⟨fold nt.1, nt.1, eraseL (sortG fold cs), nt.2⟩], [])
 
 /-- `find_top_level_tags({"Definition"})` for one top-level group: first direct Definition tag -/
 def defTagOf (ks : List Node) : Option Tag := (tagsOf ks).find? (fun t => t.base == .definition)
@@ -408,7 +423,7 @@ def checkDefExpand (sorted : Bool) (dd : DefDict) (t : Tag) (grp : Option (List 
     match grp with
     | none => []
     | some ks =>
-      if (if sorted then eqvL (sortG ks) (sortG (.tag t :: cs)) else eqvL ks (.tag t :: cs)) then []
+      if (if sorted then eqvL fold (sortG fold ks) (sortG fold (.tag t :: cs)) else eqvL fold ks (.tag t :: cs)) then []
       else [.defExpandInvalid]
 
 /-- `_get_def_tags_from_group(group)` followed by the checks, for the group with these children -/
